@@ -230,7 +230,7 @@ def giant_vhd(rng, dense):
     from dissect.hypervisor.disk.vhd import VHD
     bs = 2 << 20
     nb = (2040 << 30) // bs
-    picks = sorted({0, 1, nb // 2, nb - 1} | ({rng.randrange(nb) for _ in range(300)} if dense else set()))
+    picks = sorted({0, 1, nb // 2, nb - 1} | ({rng.randrange(nb) for _ in range(300)} - {nb // 3} if dense else set()))   # nb // 3 stays a hole (probed)
     stride = bs + 512
     top = ((1 << 32) - 8) * 512 // stride - 2 * len(picks) - 4             # block sector offsets just below 2^32, above 2^31
     pos = {b: top + 2 * (len(picks) - k) for k, b in enumerate(picks)}
@@ -269,7 +269,7 @@ def giant_vdi(rng, dense):
     from dissect.hypervisor.disk.vdi import VDI
     bs = 1 << 20
     nb = (2 << 40) // bs
-    picks = sorted({0, 1, nb // 2, nb - 1} | ({rng.randrange(nb) for _ in range(300)} if dense else set()))
+    picks = sorted({0, 1, nb // 2, nb - 1} | ({rng.randrange(nb) for _ in range(300)} - {nb // 3} if dense else set()))   # nb // 3 stays a hole (probed)
     pos = {b: (1 << 21) - 5 - 2 * k for k, b in enumerate(picks)}          # physical positions near 2^21 blocks (2 TiB into the file)
     blocks_offset = 512
     data_offset = (blocks_offset + 4 * nb + 511) // 512 * 512
@@ -300,7 +300,7 @@ def giant_hds(rng, dense, ver=2):
     cs = 1 << 20
     spc = cs // 512
     n = (((4 << 40) + (rng.randrange(1, 1 << 20) << 20)) // cs) if ver == 2 else ((1 << 40) // cs)   # v1: 32-bit sector count
-    picks = sorted({0, 1, n // 2, n - 1} | ({rng.randrange(n) for _ in range(300)} if dense else set()))
+    picks = sorted({0, 1, n // 2, n - 1} | ({rng.randrange(n) for _ in range(300)} - {n // 3} if dense else set()))   # n // 3 stays a hole (probed)
     hdr_clusters = -(-(64 + 4 * n) // cs)
     if ver == 2:
         pos = {c: (1 << 23) - 3 - 2 * k for k, c in enumerate(picks)}     # cluster index ~2^23: 8 TiB into the file
